@@ -11,7 +11,8 @@ def main(tier: str) -> int:
                      "nunavut.jinja.DSDLCodeGenerator._generate_type over the real C templates of /verif/data/ns1"]
     M = "h_C10"
     T = 600 if tier == "quick" else 3000
-    conds = [Cond(M, f, T, 120, dict(C10_K="2")) for f in ("limiter_state_does_not_leak", "limiter_arbitrary_prestate", "unique_names_do_not_leak")]
+    conds = [Cond(M, f, T, 120, dict(C10_K="2")) for f in ("limiter_arbitrary_prestate", "unique_names_do_not_leak")]
+    conds += [Cond(M, "limiter_state_does_not_leak", T, 120, dict(C10_K="2", C10_N=n)) for n in ("0", "1")]
     conds.append(Cond(M, "earlier_run_with_other_options_does_not_matter", max(T, 900), 600))
     conds.append(Cond(M, "earlier_run_over_another_tree_does_not_matter", max(T, 900), 600))
     masks = (1, 2, 4, 7) if tier == "quick" else range(1, 8)
